@@ -124,6 +124,9 @@ const EDITS: &[Edit] = &[
     Edit { name: "same-input-in-two-txs-atr", expect: Reject, known: None, needs: Needs::Wrapped, venues: Venues::BlockOnly, stake_slot: false },
     Edit { name: "same-input-in-two-txs-block-stake", expect: Reject, known: None, needs: Needs::Staking, venues: Venues::BlockOnly, stake_slot: false },
     Edit { name: "same-input-in-two-txs-miner-output", expect: Reject, known: None, needs: Needs::Payouts, venues: Venues::BlockOnly, stake_slot: false },
+    // the sweep of Block::validate must look past zero-amount and Bound inputs
+    Edit { name: "same-input-in-two-txs-after-zero-input", expect: Reject, known: None, needs: Needs::Fresh, venues: Venues::BlockOnly, stake_slot: false },
+    Edit { name: "bound-deposit-nft-twice-in-block", expect: Reject, known: None, needs: Needs::Nft, venues: Venues::BlockOnly, stake_slot: false },
     // user-transaction types that must get no exemption
     ed("type-golden-ticket-zero-signature", Reject, Needs::Fresh),
     ed("type-golden-ticket-foreign-input", Reject, Needs::Fresh),
@@ -135,6 +138,8 @@ const EDITS: &[Edit] = &[
     ed("type-spv-burns-own-input", Reject, Needs::Fresh),
     ed("type-spv-burns-foreign-input", Reject, Needs::Fresh),
     ed("type-spv-empty", Observe, Needs::Fresh),
+    // Bound slips count 0 in the fee: only the "no inputs" rule stops a placeholder from consuming one
+    ed("type-spv-burns-nft-slip", Reject, Needs::Nft),
     // the signed bytes carry no slip counts: from=[a] to=[b, c] signs like from=[a, b'] to=[c]
     edk("resplit-output-as-input", "signed-bytes-not-delimited", Needs::Fresh),
     // one signed field changed after signing, signature kept: pins what the signature covers
@@ -888,6 +893,21 @@ async fn make_edit(w: &mut World, built: &Built, e: usize, ts: u64, rng: &mut Rn
             let mut t = raw_tx(TransactionType::SPV, vec![vic.clone()], vec![], &ask, ts);
             t.signature = [7; 64];
             one(t)
+        }
+        "type-spv-burns-nft-slip" => {
+            let nft = w.nft_v2v.clone()?;
+            let mut t = raw_tx(TransactionType::SPV, vec![nft.slips[0].clone()], vec![], &ask, ts);
+            t.signature = [9; 64];
+            one(t)
+        }
+        "same-input-in-two-txs-after-zero-input" => Some(vec![
+            raw_tx(n, vec![own.clone()], vec![slip_out(apk, own.amount)], &ask, ts),
+            raw_tx(n, vec![slip_out(apk, 0), own.clone()], vec![slip_out(vpk, own.amount)], &ask, ts + 1),
+        ]),
+        "bound-deposit-nft-twice-in-block" => {
+            // the deposit (a Normal slip with an amount) follows the Bound slip in both transfers
+            let nft = w.nft_a2a.clone()?;
+            Some(vec![send_nft(&nft, apk, vec![], vec![], &ask, ts), send_nft(&nft, vpk, vec![], vec![], &ask, ts + 1)])
         }
         "type-spv-empty" => one(raw_tx(TransactionType::SPV, vec![], vec![], &ask, ts)),
         "tamper-after-signing-output-amount" | "tamper-after-signing-output-key" | "tamper-after-signing-output-type" | "tamper-after-signing-input-key"
